@@ -49,6 +49,14 @@ TraceNextId ==
 
 TraceNext == TraceNextId
 
+\* NoAlias on the generated NAMES: the harness lists the events of prefixes of which one is another one
+\* followed by digits (the only way two different (prefix, id) pairs can give one name); TLC builds the names
+Named == Traces[t].named
+NameClash == l = 1 =>
+  \A i, j \in DOMAIN Named :
+     (i < j /\ GenName(Named[i].b, Named[i].id) = GenName(Named[j].b, Named[j].id)) =>
+        PrintT(<<"CLASH", Traces[t].tid, i, j>>) /\ TRUE
+
 Accepted == (l = Len(Runs) + 1) => PrintT(<<"ACCEPT", Traces[t].tid>>)
 Stuck    == (l <= Len(Runs) /\ ~ENABLED TraceNext) =>
                PrintT(<<"STUCK", Traces[t].tid, l, Runs[l].b, Runs[l].lo, Runs[l].hi>>)
